@@ -258,6 +258,10 @@ func runC14Closures(c C14Case) (st Stats, err error) {
 			cd = stackage.Cond("kw", stackage.Eq, c14Expr(c.Expr))
 			twin = stackage.Cond("kw", stackage.Eq, c14Expr(c.Expr))
 			other = stackage.Cond("kw", stackage.Ne, c14Expr(c.Expr))
+			// the ARGUMENTS carry equality closures of their own, each saying the opposite of the truth: whose
+			// closure decides is the receiver's business alone
+			twin.SetEqualityPolicy(func(any, any) error { return fmt.Errorf("the argument's closure says: different") })
+			other.SetEqualityPolicy(func(any, any) error { return nil })
 		}); p != "" {
 			return st, violf("setup/panic", "%s", p)
 		}
@@ -434,6 +438,8 @@ func runC14Closures(c C14Case) (st Stats, err error) {
 		s = newStackOfKind(c.Kind, 0).Push("a", "b")
 		twin = newStackOfKind(c.Kind, 0).Push("a", "b")
 		other = newStackOfKind(c.Kind, 0).Push("a", "c")
+		twin.SetEqualityPolicy(func(any, any) error { return fmt.Errorf("the argument's closure says: different") })
+		other.SetEqualityPolicy(func(any, any) error { return nil })
 		if c.Expr >= 2 {
 			// a nested Stack (and a Condition holding one) that carry rejecting closures of their own:
 			// the receiver's installed closures must still be the ones that decide
